@@ -109,6 +109,8 @@ def p1_programs():
             fn("any", [], [fn("headers"), T("10")]), fn("any", [], [fn("variables"), T("abc")]), fn("any", [], [fn("headers"), B])]
     out += [["==", fn("count_headers"), T(3)], ["==", fn("count_headers_in_line"), T(3)], ["==", fn("count_headers_in_line"), fn("count_headers")],
             fn("above", [], [fn("count_headers_in_line"), fn("count_headers")]), fn("below", [], [fn("count_headers_in_line"), T(3)])]
+    out += [fn("all"), fn("missing"), fn("all", [], [fn("headers")]), fn("missing", [], [fn("headers")]), fn("all", [], [fn("variables")]),
+            fn("not", [], [fn("all")])]
     out += [fn("all", [], [A, B]), fn("missing", [], [A, B]), fn("all", [], [A, B, ABSENT]), fn("missing", [], [B, A1])]
     out += [fn("int", [], [A]), fn("float", [], [A]), fn("int", [], [B]), fn("starts_with", [], [A, T("a")]), fn("starts_with", [], [A, B]), fn("starts_with", [], [B, T("1")])]
     out += [["->", ["==", A, T("1")], ["=", ["v", "w"], [], B]], ["=", ["v", "w"], [], A], ["=", ["v", "w"], ["notnone"], ABSENT]]
